@@ -13,6 +13,7 @@ import (
 	"fmt"
 	"net"
 	"os"
+	"runtime"
 	"sort"
 	"strings"
 	"sync"
@@ -417,14 +418,21 @@ type c39State struct {
 	V    string
 }
 
+type c39Release struct {
+	AtUs, Seq int64
+	ID        string // the client id given to the delkey script
+	LockAtUs  int64  // when the lock it removed had been taken
+}
+
 type c39Truth struct {
-	States map[string][]c39State // per key, in execution order
-	Dels   map[string][]int64    // instants of DEL / external SET / expiry of the key
-	Unsupp bool
+	States   map[string][]c39State   // per key, in execution order
+	Dels     map[string][]int64      // instants of DEL / external SET / expiry of the key
+	Releases map[string][]c39Release // delkey script executions that removed a lock
+	Unsupp   bool
 }
 
 func c39BuildTruth(events []fakeredis.Event) c39Truth {
-	tr := c39Truth{States: map[string][]c39State{}, Dels: map[string][]int64{}}
+	tr := c39Truth{States: map[string][]c39State{}, Dels: map[string][]int64{}, Releases: map[string][]c39Release{}}
 	kinds := map[string]string{} // sha -> setkey delkey acquire
 	classify := func(body string) string {
 		switch {
@@ -525,6 +533,9 @@ func c39BuildTruth(events []fakeredis.Event) c39Truth {
 					}
 				case "delkey":
 					if e.Reply.T == ':' && e.Reply.I == 1 {
+						if st := cur(k); st.Kind == "lock" {
+							tr.Releases[k] = append(tr.Releases[k], c39Release{AtUs: e.At, Seq: e.Seq, ID: e.Argv[4], LockAtUs: st.AtUs})
+						}
 						put(e, k, "none", "")
 					}
 				}
@@ -561,6 +572,9 @@ func c39Check(col *stat.Collector, rt stat.Fataler, plan c39Plan, run c39Run, tr
 	}
 	if run.Res.Panic != nil {
 		c.Fail(rt, "C39.no-panic", run.Res.String(), plan)
+	}
+	if run.Res.Leak {
+		c.Fail(rt, "C39.no-leak", run.Res.String(), plan)
 	}
 	if !run.CloseOK {
 		c.Fail(rt, "C39.close-returns", "Close of the cache-aside clients did not return within a virtual minute", plan)
@@ -728,6 +742,27 @@ func c39Check(col *stat.Collector, rt stat.Fataler, plan c39Plan, run c39Run, tr
 				}
 			}
 			if excuse == "" {
+				// Signature of finding C39.sibling-lock-released: the lock taken by a loader of the cluster was removed by
+				// a delkey script while that loader was still running and its client was alive. The lock value is the
+				// client id, not a per-call token, so a call of the same client that cleans up after a failed or timed-out
+				// load (its own lock long expired) releases the lock a sibling call has taken since.
+				for _, r := range tr.Releases[key] {
+					for _, m := range cluster {
+						stillLoading := !m.l.Done || m.l.EndUs > r.AtUs || (m.l.EndUs == r.AtUs && !m.l.Failed)
+						if r.LockAtUs == m.l.StartUs && r.AtUs >= m.l.StartUs && stillLoading && r.AtUs <= to {
+							excuse = "sibling-release"
+						}
+					}
+				}
+				if excuse != "" && !c.c.Known("C39.sibling-lock-released") {
+					var desc []string
+					for _, m := range cluster {
+						desc = append(desc, fmt.Sprintf("%s loading %d..%d us", describe(m.g), m.l.StartUs, m.l.EndUs))
+					}
+					c.Fail(rt, "C39.single-loader", fmt.Sprintf("loaders ran at the same time for key %q because a call of the holder's own client released the holder's lock (delkey with the shared client id) while the holder was loading: %s; releases %+v", key, strings.Join(desc, "; "), tr.Releases[key]), plan)
+				}
+			}
+			if excuse == "" {
 				var desc []string
 				for _, m := range cluster {
 					desc = append(desc, fmt.Sprintf("%s loading %d..%d us", describe(m.g), m.l.StartUs, m.l.EndUs))
@@ -852,6 +887,12 @@ func genC39Plan(rt *rapid.T) c39Plan {
 }
 
 func TestVerif_C39_Aside(t *testing.T) {
+	// Go 1.25.0 allocates the synctest "bubble special" of a WaitGroup without holding mheap_.speciallock
+	// (runtime.getOrSetBubbleSpecial): first Add calls running in parallel on several Ps (every dial of a
+	// rueidis connection does one) corrupt the span's specials list, which ends in "fatal error: sync:
+	// WaitGroup.Add called from multiple synctest bubbles" or in a GC worker spinning for ever in
+	// markrootSpans. One P serialises those calls.
+	defer runtime.GOMAXPROCS(runtime.GOMAXPROCS(1))
 	c := stat.For("C39", "cache-aside").Rule("timed plans in a synctest bubble: 2-4 rueidisaside clients (UseLuaLock on/off, ClientTTL 60-400 ms, PipelineMultiplex -1..1, plain or typed JSON wrapper) x 1-3 callers x 1-4 ops on 1-3 keys: Get with a loader of latency 0-50 ms and outcome value/error/empty (optionally OverrideCacheTTL), Get without loader, Del; events at generated instants: Close of a client, crash (connections dropped and re-dialling refused, so its liveness key expires), connection kill (reconnects), SET/DEL of a key by another client; server latency 0-0.5 ms; oracle: no successful result contains PlaceholderPrefix; a result is the call's own loader output or a value stored for the key at some instant of the call (server log); two loaders overlap on a key only after a Del/overwrite/expiry, the first holder's death or the lock TTL; a Get whose TTL exceeds all loader latencies on the key plus the liveness TTL of crashed clients never fails with a context error on a live client, nothing hangs; non-trivial = >= 3 Gets on one key overlapping in time across >= 2 clients, or a client death while one of its loaders runs")
 	defer c.Flush()
 	rapid.Check(t, func(rt *rapid.T) {
